@@ -12,6 +12,8 @@ use std::sync::atomic::{AtomicU64, Ordering};
 pub enum Class {
     MismatchedSenderPub, WrongRecipient, RightSkWrongPub, WrongSkRightPub,
     ClaimOtherStatic, AttackerSs, WrongEs,
+    /// handshakes written by something that does not follow Noise X: a token left out, the payload sealed under the key of an earlier stage
+    SkipSs { low_order_static: Option<usize> }, SkipEs,
     Splice { field: u8, same_sender: bool },
     LowOrderRecipient { idx: usize }, LowOrderEphemeral { idx: usize }, LowOrderStatic { idx: usize },
     Honest,
@@ -27,6 +29,7 @@ fn class_strategy() -> impl Strategy<Value = Class> {
     prop_oneof![
         2 => Just(Class::MismatchedSenderPub), 2 => Just(Class::WrongRecipient), 1 => Just(Class::RightSkWrongPub), 1 => Just(Class::WrongSkRightPub),
         2 => Just(Class::ClaimOtherStatic), 2 => Just(Class::AttackerSs), 2 => Just(Class::WrongEs),
+        2 => proptest::option::of(0..n).prop_map(|low_order_static| Class::SkipSs { low_order_static }), 1 => Just(Class::SkipEs),
         4 => (0u8..4, any::<bool>()).prop_map(|(field, same_sender)| Class::Splice { field, same_sender }),
         2 => (0..n).prop_map(|idx| Class::LowOrderRecipient { idx }), 2 => (0..n).prop_map(|idx| Class::LowOrderEphemeral { idx }), 1 => (0..n).prop_map(|idx| Class::LowOrderStatic { idx }),
         2 => Just(Class::Honest),
@@ -85,6 +88,22 @@ pub fn check(c: &Case) -> CheckResult {
             kspec::write_chunks(&mut f, &kspec::file_key(&pl, &h), &[], &p, &lens);
             must_reject(&f, &r.sk, &r.pk, match c.class { Class::ClaimOtherStatic => "forged handshake claiming S' with ss from S", Class::AttackerSs => "forged handshake claiming S with ss from an attacker key", _ => "forged handshake whose es comes from a different ephemeral key" })?;
         }
+        Class::SkipSs { low_order_static } => {
+            // e, es, s as prescribed - then the payload is sealed WITHOUT mixing ss (anyone who knows R's public key can do this)
+            let claimed = match low_order_static { Some(i) => low[*i % low.len()], None => s.pk };
+            let mut st = kspec::Sym::new(kspec::NOISE_NAME); st.mix_hash(&kspec::MAGIC_KEY); st.mix_hash(&r.pk);
+            let epk = kspec::x25519_base(&e); let mut m = epk.to_vec(); st.mix_hash(&epk); st.mix_key(&kspec::x25519(&e, &r.pk));
+            m.extend_from_slice(&st.encrypt_and_hash(&claimed)); m.extend_from_slice(&st.encrypt_and_hash(&pl));
+            let mut f = kspec::MAGIC_KEY.to_vec(); f.extend_from_slice(&m); kspec::write_chunks(&mut f, &kspec::file_key(&pl, &st.h), &[], &p, &lens);
+            must_reject(&f, &r.sk, &r.pk, "handshake whose payload was sealed without the static-static key exchange (no sender private key involved)")?;
+        }
+        Class::SkipEs => {
+            let mut st = kspec::Sym::new(kspec::NOISE_NAME); st.mix_hash(&kspec::MAGIC_KEY); st.mix_hash(&r.pk);
+            let epk = kspec::x25519_base(&e); let mut m = epk.to_vec(); st.mix_hash(&epk);
+            st.mix_key(&kspec::x25519(&s.sk, &r.pk)); m.extend_from_slice(&st.encrypt_and_hash(&s.pk)); m.extend_from_slice(&st.encrypt_and_hash(&pl));
+            let mut f = kspec::MAGIC_KEY.to_vec(); f.extend_from_slice(&m); kspec::write_chunks(&mut f, &kspec::file_key(&pl, &st.h), &[], &p, &lens);
+            must_reject(&f, &r.sk, &r.pk, "handshake without the ephemeral-static key exchange")?;
+        }
         Class::Splice { field, same_sender } => {
             let other_sender = if *same_sender { &s } else { &s2 };
             let p2 = gen::bytes_from(c.keys ^ 77, p.len());
@@ -127,7 +146,9 @@ pub fn check_lookup(c: &Lookup) -> CheckResult {
     for i in 0..(c.others % 4) { entries.push((format!("other{}", i), kspec::encode_public_key(&kx::ident(c.sender ^ (i as u64 + 1), "lookup-O").pk))); }
     for (k, (kind, pos)) in c.lookalikes.iter().enumerate() {
         let mut cs: Vec<char> = epk.chars().collect(); let p = crate::core::pick(*pos, cs.len());
-        match kind % 3 {
+        match kind % 4 {
+            3 => { // another key that carries the SENDER's 4 checksum bytes (entries are not checksum-verified when a keyring is read)
+                let mut b = kx::ident(c.sender ^ 0xABCD ^ *pos as u64, "lookup-L").pk.to_vec(); b.extend_from_slice(&kspec::sha256(&spk)[..4]); cs = kspec::base64(&b).chars().collect(); }
             0 => { for ch in cs.iter_mut() { if ch.is_ascii_alphabetic() { *ch = if ch.is_ascii_lowercase() { ch.to_ascii_uppercase() } else { ch.to_ascii_lowercase() }; } } }
             1 => { let ch = cs[p]; cs[p] = if ch.is_ascii_lowercase() { ch.to_ascii_uppercase() } else if ch.is_ascii_uppercase() { ch.to_ascii_lowercase() } else if ch == '+' { '/' } else { 'A' }; }
             _ => { cs[p] = if cs[p] == 'A' { 'B' } else { 'A' }; }
@@ -151,8 +172,8 @@ pub fn run(ctx: &Ctx) {
     ctx.pbt("constructed_forgeries", ctx.n(120_000, 1_200_000), strat, check);
     // every low-order spelling, deterministically
     let n = gen::low_order_points().len();
-    let cases: Vec<Case> = (0..n).flat_map(|idx| [Class::LowOrderRecipient { idx }, Class::LowOrderEphemeral { idx }, Class::LowOrderStatic { idx }]).map(|class| Case { class, plain: Plain { len: 20, seed: 5 }, keys: ctx.seed, lens: vec![7], ws: WSched::all() }).collect();
-    ctx.sse_vec("low_order_all", "all 14 encodings of small-order points x {recipient, ephemeral field, static field}", cases, check);
-    ctx.pbt("sender_name_lookup_exact", ctx.n(30_000, 500_000), || (any::<u64>(), proptest::option::of(any::<u8>()), proptest::collection::vec((0u8..3, any::<u16>()), 0..4), 0u8..4).prop_map(|(sender, present_at, lookalikes, others)| Lookup { sender, present_at, lookalikes, others }), check_lookup);
+    let cases: Vec<Case> = (0..n).flat_map(|idx| [Class::LowOrderRecipient { idx }, Class::LowOrderEphemeral { idx }, Class::LowOrderStatic { idx }, Class::SkipSs { low_order_static: Some(idx) }]).map(|class| Case { class, plain: Plain { len: 20, seed: 5 }, keys: ctx.seed, lens: vec![7], ws: WSched::all() }).collect();
+    ctx.sse_vec("low_order_all", "all 14 encodings of small-order points x {recipient, ephemeral field, static field, static field with the ss token skipped}", cases, check);
+    ctx.pbt("sender_name_lookup_exact", ctx.n(30_000, 500_000), || (any::<u64>(), proptest::option::of(any::<u8>()), proptest::collection::vec((0u8..4, any::<u16>()), 0..4), 0u8..4).prop_map(|(sender, present_at, lookalikes, others)| Lookup { sender, present_at, lookalikes, others }), check_lookup);
     ctx.put("spec_written_honest_files", serde_json::json!({"accepted": SPEC_HONEST_ACCEPTED.load(Ordering::Relaxed), "rejected": SPEC_HONEST_REJECTED.load(Ordering::Relaxed), "note": "informational: shows the specification-built forgeries are rejected for their construction, not for a format mismatch"}));
 }
